@@ -90,6 +90,14 @@ def _stop_edges(cx, fn, rd):
     for b in sorted(fn.live_blocks()):
         be = fn.bool_edges(b)
         if be is None:
+            # `match src.read(..) { Ok(0) => eof, Ok(n) => .. }`: a switch on the Ok payload itself, arm 0
+            if fn.term(b)['k'] == 'switch':
+                e = fn.switch_expr(b)
+                x = e.strip() if e is not None else None
+                if x is not None and x.kind == 'proj' and any(k.pos == rd.pos for k in x.calls()) and not x.has_call('len') and e.kind != 'discr':
+                    for tgt, vals in fn.edge_values(b).items():
+                        if vals == {0}:
+                            out.append(('eof', (b, tgt)))
             continue
         e = fn.switch_expr(b)
         rel = as_relation((e, True))
